@@ -41,4 +41,13 @@ def main():
 
 
 if __name__ == '__main__':
-    sys.exit(main())
+    try:
+        rc = main()
+    except SystemExit:
+        raise
+    except BaseException as e:   # noqa  (never exit 1 - the code of a violation - for a failure of the harness itself)
+        import traceback
+        traceback.print_exc()
+        print('HARNESS-ERROR: %r' % (e,))
+        rc = 2
+    sys.exit(rc)
